@@ -1,0 +1,81 @@
+//! Hooks for the external verification harness.
+//!
+//! Only compiled with `--cfg rustic_core_verif`; nothing in here is used by the library itself.
+//! The module merely makes crate-private functionality callable: building the in-memory index
+//! from a list of [`IndexPack`]s in each index mode, and creating the chunk iterator.
+
+use std::io::Read;
+
+use crate::{
+    RusticResult,
+    blob::{BlobId, BlobType},
+    chunker::ChunkIter,
+    index::{
+        GlobalIndex, ReadIndex,
+        binarysorted::{IndexCollector, IndexType},
+    },
+    repofile::{ConfigFile, IndexPack, PackId},
+};
+
+/// The in-memory index built from the given packs (as if they were the `packs` sections of index files)
+#[derive(Debug)]
+pub struct VerifIndex(GlobalIndex);
+
+impl VerifIndex {
+    /// Build the index; `mode` is one of `full`, `data-ids`, `only-trees`
+    #[must_use]
+    pub fn from_packs(packs: Vec<IndexPack>, mode: &str) -> Self {
+        let tpe = match mode {
+            "data-ids" => IndexType::DataIds,
+            "only-trees" => IndexType::OnlyTrees,
+            _ => IndexType::Full,
+        };
+        let mut collector = IndexCollector::new(tpe);
+        collector.extend(packs);
+        Self(GlobalIndex::new_from_index(collector.into_index()))
+    }
+
+    /// Lookup: (pack, offset, length, uncompressed length)
+    #[must_use]
+    pub fn get(&self, tpe: BlobType, id: &BlobId) -> Option<(PackId, u32, u32, Option<u32>)> {
+        self.0.get_id(tpe, id).map(|ie| {
+            (
+                ie.pack,
+                ie.location.offset,
+                ie.location.length,
+                ie.location.uncompressed_length.map(std::num::NonZeroU32::get),
+            )
+        })
+    }
+
+    /// Presence query
+    #[must_use]
+    pub fn has(&self, tpe: BlobType, id: &BlobId) -> bool {
+        self.0.has(tpe, id)
+    }
+
+    /// Sum of the pack sizes of the given type
+    #[must_use]
+    pub fn total_size(&self, tpe: BlobType) -> u64 {
+        self.0.total_size(tpe)
+    }
+
+    /// Iterate the packs back out of the index
+    #[must_use]
+    pub fn into_packs(self) -> Vec<IndexPack> {
+        self.0.into_index().into_iter().collect()
+    }
+}
+
+/// Chunk `reader` as a backup with the given repository config would
+///
+/// # Errors
+///
+/// * If the chunker parameters of the config are invalid
+pub fn chunk_iter<R: Read + Send + 'static>(
+    config: &ConfigFile,
+    reader: R,
+    size_hint: usize,
+) -> RusticResult<Box<dyn Iterator<Item = RusticResult<Vec<u8>>> + Send>> {
+    Ok(Box::new(ChunkIter::from_config(config, reader, size_hint)?))
+}
